@@ -524,7 +524,7 @@ func (w *World) aliveSummary() string {
 func (w *World) LibTasksAlive() []*simrt.Task {
 	var out []*simrt.Task
 	for _, t := range w.S.AliveTasks() {
-		if t.Lib {
+		if t.Lib && !t.TimerWait.Load() {
 			out = append(out, t)
 		}
 	}
